@@ -3,7 +3,8 @@
 import json, os, subprocess, sys
 ROOT = os.path.dirname(os.path.dirname(os.path.abspath(__file__)))
 sys.path.insert(0, os.path.join(ROOT, "engine"))
-from props import PROPS, NOT_APPLICABLE  # noqa
+from props import PROPS, NOT_APPLICABLE, ENABLED  # noqa
+PROPS = {k: v for k, v in PROPS.items() if k in ENABLED}
 
 ids = [json.loads(l)["id"] for l in open(os.path.join(ROOT, "properties.jsonl"))]
 hook_commits = subprocess.run(["git", "-C", "/repo", "log", "--format=%H", "--grep=DATASKETCHES_VERIF"], capture_output=True, text=True).stdout.split()
